@@ -265,6 +265,24 @@ func checkC01(c *Ctx) {
 		for i := range gs {
 			gs[i] = genLexGrammar(rng, c01Opts)
 		}
+		if done == 0 {
+			// the lexical parts of the repository's own grammars (read by the independent reader),
+			// as far as they lie in the domain of this check
+			in, out := 0, 0
+			for _, f := range repoGrammars() {
+				if f.Lex == nil || len(f.Lex.Defs) == 0 {
+					continue
+				}
+				if ok, _ := f.Lex.lexInDomain(); ok {
+					gs = append(gs, f.Lex)
+					in++
+				} else {
+					out++
+				}
+			}
+			c.Set("repository_lexical_parts", map[string]int{"in_domain_checked": in, "outside_domain_skipped": out})
+			gs = append(gs, curatedLex()...)
+		}
 		b := c.buildLexBatch(fmt.Sprintf("lex%d", done), gs)
 		c.Add("evaluations", int64(len(b.Cases)))
 		for _, cs := range b.Cases {
